@@ -54,6 +54,7 @@ class Stage:
     def __init__(self, root):
         self.root = root
         self.src = os.path.join(root, 'src')
+        self.srcL = os.path.join(root, 'srcL')
         self.inject_report = {}
         self.inject_error = {}
 
@@ -69,12 +70,15 @@ class Stage:
         for f in ('config.h',):
             if os.path.exists(os.path.join(REPO, f)):
                 shutil.copy2(os.path.join(REPO, f), os.path.join(self.src, f))
+        # srcL = same tree with loop contracts injected (used only by obligations with loops=True)
+        self.srcL = os.path.join(self.root, 'srcL')
+        shutil.copytree(self.src, self.srcL)
         ldir = os.path.join(VERIF, 'loops')
         for lf in sorted(os.listdir(ldir)) if os.path.isdir(ldir) else []:
             if not lf.endswith('.loops'):
                 continue
             unit = lf[:-len('.loops')].replace('__', '/')
-            path = os.path.join(self.src, unit)
+            path = os.path.join(self.srcL, unit)
             try:
                 entries = inj.parse_loops_file(open(os.path.join(ldir, lf)).read())
                 src = open(path, encoding='latin-1').read()
@@ -143,7 +147,7 @@ def value_of(v):
     return {'data': v.get('data')}
 
 
-def extract_inputs(trace, entry):
+def extract_inputs(trace, entry, harness_file=None):
     """Final value of each harness-level variable (inputs are initialised from nondet_vf_* once).
     CBMC reports struct/array assignments piecewise (x, x.b, x.b[3l]), so paths are applied in order."""
     inputs = {}
@@ -152,7 +156,7 @@ def extract_inputs(trace, entry):
             continue
         lhs = st.get('lhs', '')
         fn = st.get('sourceLocation', {}).get('function')
-        if fn != entry:
+        if fn != entry and not (harness_file and st.get('sourceLocation', {}).get('file', '').endswith(harness_file)):
             continue
         mo = re.match(r'([A-Za-z_][A-Za-z0-9_]*)((?:\.[A-Za-z_][A-Za-z0-9_]*|\[\d+l?\])*)$', lhs)
         if not mo:
@@ -265,6 +269,50 @@ class Obl:
                     'bound': spec.get('bound'), 'replaced': spec.get('replace', []),
                     'cmd': ''}
 
+    def restrict_fps(self, a, out):
+        """Function-pointer call sites are resolved by CBMC to every address-taken function of the same
+        type; fp_restrict = [(regex on the call expression, [targets])] narrows listed sites to the
+        functions that can actually be stored there in this harness (checked by CBMC: a call to any
+        other target fails the generated 'pointer must be one of' assertion)."""
+        rc, txt, err, dt = run_cmd(['goto-instrument', '--show-goto-functions', a], 300)
+        if rc != 0:
+            return 'cannot list goto functions'
+        restr = {}
+        fn = None
+        count = {}
+        defined = set(re.findall(r'^([A-Za-z_][A-Za-z0-9_$]*) /\* ', txt, re.M))
+        for line in txt.splitlines():
+            mo = re.match(r'^([A-Za-z_][A-Za-z0-9_$]*) /\* ', line)
+            if mo:
+                fn = mo.group(1)
+                continue
+            if fn and 'CALL' in line and re.search(r'CALL\s+(?:\S+\s*:=\s*)?\*', line):
+                count[fn] = count.get(fn, 0) + 1
+                # callee expression only (not the arguments)
+                k = re.search(r'CALL\s+(?:\S+\s*:=\s*)?\*', line).end()
+                if k < len(line) and line[k] == '(':
+                    depth = 0
+                    e = k
+                    while e < len(line):
+                        depth += line[e] == '('
+                        depth -= line[e] == ')'
+                        e += 1
+                        if depth == 0:
+                            break
+                    callee = line[k:e]
+                else:
+                    callee = re.match(r'[A-Za-z0-9_:$.]*', line[k:]).group(0)
+                for rx, targets in self.s['fp_restrict']:
+                    if re.search(rx, callee):
+                        restr['%s.function_pointer_call.%d' % (fn, count[fn])] = [t for t in targets if t in defined]
+                        break
+        f = os.path.join(self.dir, 'fp_restrict.json')
+        json.dump(restr, open(f, 'w'), indent=1)
+        rc, o, e, dt = run_cmd(['goto-instrument', '--function-pointer-restrictions-file', f, a, out], 300)
+        if rc != 0:
+            return 'function pointer restriction failed: ' + (e.strip().splitlines() or o.strip().splitlines() or ['?'])[-1][:200]
+        return None
+
     def static_excludes(self, a):
         rc, out, err, dt = run_cmd(['goto-instrument', '--show-symbol-table', '--json-ui', a], 300)
         ex = []
@@ -281,7 +329,7 @@ class Obl:
                     continue
                 tid = (sym.get('type') or {}).get('id')
                 f = (sym.get('location') or {}).get('file', '')
-                if tid == 'code' or f.startswith(self.stage.src) or f.startswith(VERIF):
+                if tid == 'code' or f.startswith(self.stage.root) or f.startswith(VERIF):
                     ex += ['--nondet-static-exclude', name]
         return ex
 
@@ -295,9 +343,10 @@ class Obl:
         cmd = ['goto-cc', '--function', s['entry'], '-std=gnu99', '-DVF_CBMC', '-D' + GUARD,
                '-D__builtin_nanf(x)=(0.0f/0.0f)', '-D__builtin_nan(x)=(0.0/0.0)',
                '-I', os.path.join(VERIF, 'include'), '-I', VERIF]
+        tree = self.stage.srcL if s.get('loops') else self.stage.src
         for d in s.get('incdirs', ['skeletons']):
-            cmd += ['-I', os.path.join(self.stage.src, d)]
-        cmd += ['-I', self.stage.src]
+            cmd += ['-I', os.path.join(tree, d)]
+        cmd += ['-I', tree]
         for d in self.defines + s.get('defines', []):
             cmd.append('-D' + d)
         if s.get('big_endian'):
@@ -306,7 +355,7 @@ class Obl:
             cmd += ['-include', os.path.join(VERIF, h)]
         cmd.append(os.path.join(VERIF, s['harness']))
         for u in s.get('link', []):
-            cmd.append(os.path.join(self.stage.src, u))
+            cmd.append(os.path.join(tree, u))
         for u in s.get('stubs', []):
             cmd.append(os.path.join(VERIF, u))
         cmd += ['-o', out]
@@ -370,6 +419,12 @@ class Obl:
         if rc != 0:
             open(os.path.join(self.dir, 'cc.err'), 'w').write(out + err)
             return self.undecided('goto-cc failed: ' + (err.strip().splitlines() or ['?'])[-1][:300])
+        if s.get('fp_restrict'):
+            a2 = os.path.join(self.dir, 'a_fp.gb')
+            err = self.restrict_fps(a, a2)
+            if err:
+                return self.undecided(err)
+            a = a2
         gi = ['goto-instrument']
         use_dfcc = bool(s.get('enforce') or s.get('replace') or s.get('loops'))
         if use_dfcc:
@@ -507,7 +562,7 @@ class Obl:
         if r2:
             for r in r2:
                 if 'trace' in r and (prop is None or r.get('property') == prop) and CANARY not in r.get('description', ''):
-                    return extract_inputs(r['trace'], s['entry'])
+                    return extract_inputs(r['trace'], s['entry'], os.path.basename(s['harness']))
         return {}
 
     def bounded_cex(self, a, cb, timeout):
